@@ -208,7 +208,7 @@ func (b *RecBackend) NewSession(c *smtp.Conn) (smtp.Session, error) {
 // Wait waits for outstanding deliveries: the calls in progress, and go-smtp's
 // own delivery goroutines that may not have reached the backend yet.
 func (b *RecBackend) Wait() bool {
-	deadline := time.Now().Add(3 * time.Second)
+	deadline := time.Now().Add(6 * time.Second)
 	for {
 		done := make(chan struct{})
 		go func() { b.wg.Wait(); close(done) }()
